@@ -399,6 +399,13 @@ def run_mode(pid, crate, mode, n, seed, prof, wdir, proj):
                 ctx.append(f"# compared under projection: impl={a!r} model={b!r}")
                 r["mismatches"].append(dict(index=i, op=op, impl=a, model=b, context=ctx))
     r["n_mismatches"] = nmis
+    # scratch hygiene: the line files can be hundreds of MB; keep them only when they are needed to debug
+    if nmis == 0:
+        for pth in (ops_p, imp_p, mod_p):
+            try:
+                os.remove(pth)
+            except OSError:
+                pass
     r["viols"] = parse_viol(os.path.join(wdir, f"{mode}.viol"))
     try:
         r["stats"] = json.load(open(os.path.join(wdir, f"{mode}.stats.json")))
@@ -449,6 +456,10 @@ def run_core(pid, tier, seed):
     spec = PROPS[pid]
     profiles = spec.get("profiles", ["release"])
     wdir = os.path.join(WORK, f"{pid}-{tier}")
+    if REPO != "/repo":
+        wdir += "-alt"
+    import shutil
+    shutil.rmtree(wdir, ignore_errors=True)
     log(f"[{pid}] tier={tier} seed={seed}")
     global NEED_BINARY
     NEED_BINARY = any(mode == "binary" for (_, mode, _) in spec["runs"])
